@@ -12,15 +12,19 @@
                vocabulary is_trail / active); backdoor_criterionb / frontdoor_criterionb evaluate the same
                criteria by brute-force enumeration of all simple paths.
 
-   NOT attempted (stated here so that it stays visible): the general back-door theorem
+   NOT attempted unbounded (stated here so that it stays visible): the general back-door theorem
        forall bn x y Z, backdoor_criterion (bg bn) x y Z -> positivity ->
          query bn [y] [(x, v)] (Some Z) = inr (trunc_table bn [y] [(x, v)])
-   (adjustment over EVERY valid set equals the truncated factorisation).  The parent-set instance is
-   C13_single_do_parent_adjustment_upto3_grid below (finite domain); for other sets only the run-time correspondence (every enumerated
-   back-door set of every generated network, both back-ends) ties pgmpy to the truncated factorisation. *)
+   (adjustment over EVERY valid set equals the truncated factorisation; needs the global Markov property of the
+   CPD-product joint).  Proved instead: the parent-set instance UNBOUNDED (C13_single_do_parent_adjustment) and
+   the statement for every valid set on a finite domain (C13_backdoor_adjustment_is_truncated_upto3_grid); for
+   other sets on larger networks the run-time correspondence (every enumerated back-door set of every generated
+   network, both back-ends) ties pgmpy to the truncated factorisation. *)
 From Coq Require Import List Bool Arith PeanoNat QArith Qcanon.
 From PV Require Import Base.Reach Base.Graph Base.Semiring Base.Ravel Base.FinSum Base.RefFactor
-  C08.Model C08.Spec C13.Model C13.Spec C13.ProofsDo C13.ProofsTrunc C13.ProofsAdj C13.ProofsAdjLift C13.Finite C13.ProofsRefuted.
+  C08.Model C08.Spec C13.Model C13.Spec C13.ProofsDo C13.ProofsTrunc C13.ProofsAdj C13.ProofsAdjLift C13.Finite C13.ProofsRefuted
+  C13.ProofsSum C13.ProofsAdjU C13.ProofsAdjEx C13.ProofsCrit C13.ProofsCritLift C13.ProofsBdGrid C13.ProofsBdGridLift.
+From Coq Require Import Permutation.
 Import ListNotations.
 Local Close Scope Q_scope.
 Local Open Scope Qc_scope.
@@ -108,18 +112,69 @@ Example do_condition_example :
 Proof. eexists. split; [vm_compute; reflexivity|vm_compute; reflexivity]. Qed.
 
 (* ================================================================== 3. single intervention, default (parent) adjustment *)
-(* FULL STATEMENT (NOT proved algebraically; kept visible):
-     forall bn x v Y, well-formed normalised network, P(x, pa) > 0 for every parent configuration,
-       Y disjoint from {x} and Pa(x) ->
-       query bn Y [(x, v)] None = inr (trunc_table bn Y [(x, v)])
-   i.e.  sum_pa P(y | x, pa) P(pa) = sum_rest prod_{V <> X} P(v | pa_V) [X = x].
-   What is proved is the finite-domain instance on the model's [query] itself: every DAG on <= 3 binary nodes,
-   every CPD whose columns are (p, 1-p) with p in {1/4, 1/2, 3/4} (all combinations; 63 networks on 2 nodes, several thousand on 3), every do-variable and value, every non-empty query set disjoint from the do-variable and its
-   parents: the engine's answer with the default adjustment set IS the truncated factorisation (exact
-   rational equality of the whole table).  Missing for the unbounded theorem: Fubini/permutation lemmas to
-   bring the interleaved variable lists of the model into block form, and the structural lemma that the
-   non-descendant marginal of the truncated product does not depend on x (tail sums of normalised CPDs in
-   topological order equal 1). *)
+(* UNBOUNDED.  Single do-variable x (no evidence), default adjustment set = Pa(x):
+     sum_pa P(y | x, pa) P(pa)  =  sum_rest prod_{V <> X} P(v | pa_V) [X = x]     (whole table, exact)
+   for EVERY network (any size, any cardinalities) such that
+     - the CPDs can be arranged in a topological order  A ++ cx :: B  (cx the CPD of x): the child of a later
+       CPD does not occur in the scope of an earlier one  (= the graph is a DAG and CPD scopes follow it);
+     - there is one CPD per node, every CPD is normalised on in-range assignments, parents are nodes, the parents
+       of cx are the graph parents of x, cardinalities are positive;
+     - Y is duplicate-free, within the nodes, disjoint from {x} and Pa(x) (the engine refuses other Y), x's
+       parents are observed;
+     - positivity: P(x | pa) <> 0 and P(pa) <> 0 for every in-range parent configuration (the engine's own
+       definedness flag -- no division by zero is performed -- is then PROVED, not assumed).
+   Both branches of the code are covered: Pa(x) = {} (plain conditioning) and the adjustment loop with the final
+   normalisation.  Proof: ProofsSum.v (permutation/clamping of finite sums, tail sums of normalised CPDs in
+   topological order equal one), ProofsAdjU.v. *)
+Theorem C13_single_do_parent_adjustment : forall bn x xv A B cx Y,
+  NoDup (nodes (bg bn)) ->
+  Permutation (bcpds bn) (A ++ cx :: B) ->
+  Permutation (nodes (bg bn)) (map cvar (A ++ cx :: B)) ->
+  cvar cx = x ->
+  topological (A ++ cx :: B) ->
+  (forall c, In c (A ++ cx :: B) -> normalised (bcard bn) (nodes (bg bn)) c) ->
+  (forall c, In c (A ++ cx :: B) -> incl (cpars c) (nodes (bg bn)) /\ ~ In (cvar c) (cpars c)) ->
+  (forall p, In p (parents (bg bn) x) <-> In p (cpars cx)) ->
+  (forall v, In v (nodes (bg bn)) -> (0 < bcard bn v)%nat) ->
+  NoDup Y -> incl Y (nodes (bg bn)) -> ~ In x Y -> (forall y, In y Y -> ~ In y (parents (bg bn) x)) ->
+  (xv < bcard bn x)%nat ->
+  (forall p, In p (parents (bg bn) x) -> ~ In p (blat bn)) ->
+  (forall b, vOn (bcard bn) (nodes (bg bn)) b -> qeval (bcard bn) (cfac cx) (upd b x xv) <> 0) ->
+  (forall b, vOn (bcard bn) (nodes (bg bn)) b ->
+     post_num bn (default_adjustment (bg bn) [(x, xv)]) [] b <> 0) ->
+  query bn Y [(x, xv)] None = inr (trunc_table bn Y [(x, xv)]).
+Proof. exact single_do_parent_adjustment. Qed.
+Print Assumptions C13_single_do_parent_adjustment.
+
+(* the tail-sum lemma the proof rests on: a topological list of normalised CPDs, summed over its children, is 1 *)
+Theorem C13_topological_product_sums_to_one : forall card V (l : list cpd),
+  topo_rev l -> (forall c, In c l -> normalised card V c) ->
+  forall a, vOn card V a -> qsum card (map cvar (rev l)) (eval_prod Qc_sum_csr card (map cfac (rev l))) a = 1.
+Proof. exact tail_sum_one. Qed.
+Print Assumptions C13_topological_product_sums_to_one.
+
+(* the semantic hypotheses (normalisation, positivity) of the theorem are decidable by evaluating them on the
+   finitely many in-range index tuples of the nodes *)
+Theorem C13_single_do_hypotheses_checkable : forall bn x xv cs cx,
+  scopes_in bn -> (forall c, In c cs -> In c (bcpds bn)) -> In cx (bcpds bn) ->
+  hyps_okb bn x xv cs cx = true ->
+  (forall c, In c cs -> normalised (bcard bn) (nodes (bg bn)) c) /\
+  (forall b, vOn (bcard bn) (nodes (bg bn)) b -> qeval (bcard bn) (cfac cx) (upd b x xv) <> 0) /\
+  (forall b, vOn (bcard bn) (nodes (bg bn)) b -> post_num bn (default_adjustment (bg bn) [(x, xv)]) [] b <> 0).
+Proof. exact hyps_ok_sound. Qed.
+Print Assumptions C13_single_do_hypotheses_checkable.
+
+(* non-vacuity: A -> B, A -> Y, do(B = 0), query Y -- adjustment set {A}; all hypotheses hold *)
+Example single_do_unbounded_instance :
+  default_adjustment (bg w_bn) [(1, 0)]%nat = [0%nat] /\
+  query w_bn [2%nat] [(1, 0)]%nat None = inr (trunc_table w_bn [2%nat] [(1, 0)]%nat).
+Proof. exact single_do_example. Qed.
+
+(* The same statement by exhaustive computation on a finite domain (kept: it is about [query] with no
+   hypotheses to discharge): every DAG on <= 3 binary nodes,
+   every CPD whose columns are (p, 1-p) with p in {1/4, 1/2, 3/4} (all combinations; 63 networks on 2 nodes,
+   several thousand on 3), every do-variable and value, every non-empty query set disjoint from the do-variable
+   and its parents. *)
 Theorem C13_single_do_parent_adjustment_upto3_grid : forall n bn x xv Y,
   (n <= 3)%nat -> In bn (grid_bns n) -> In x (nodes (bg bn)) -> (xv < 2)%nat ->
   In Y (powerset (minus (nodes (bg bn)) (x :: parents (bg bn) x))) -> Y <> [] ->
@@ -132,40 +187,62 @@ Proof. exact grid_nonempty. Qed.
 
 Local Close Scope Qc_scope.
 
-(* ================================================================== 4. criteria (finite domain: all DAGs on <= 4 nodes) *)
+(* ================================================================== 4. criteria *)
 
-(* For every DAG on at most 4 labelled nodes, every X <> Y and every candidate set Z of non-descendants of X
-   (without X, Y): the coded back-door test is_valid_backdoor_adjustment_set and the coded
-   is_valid_adjustment_set([X],[Y],Z) both equal the path-based back-door criterion (evaluated on all
-   simple paths).  vm_compute over 573 DAGs. *)
+(* UNBOUNDED: the boolean checkers of Spec.v (enumeration of all simple paths) decide Pearl's criteria as stated
+   on paths in Spec.v, for every well-formed graph (front-door: every well-formed DAG) *)
+Theorem C13_backdoor_checker_decides : forall g x y Z, wf_graph g ->
+  (backdoor_criterionb g x y Z = true <-> backdoor_criterion g x y Z).
+Proof. exact backdoor_criterionb_spec. Qed.
+Print Assumptions C13_backdoor_checker_decides.
+
+Theorem C13_frontdoor_checker_decides : forall g x y Z, wf_graph g -> acyclic g ->
+  (frontdoor_criterionb g x y Z = true <-> frontdoor_criterion g x y Z).
+Proof. exact frontdoor_criterionb_spec. Qed.
+Print Assumptions C13_frontdoor_checker_decides.
+
+(* finite domain: all DAGs on <= 4 labelled nodes (573 graphs), by vm_compute, then lifted to the Prop criteria.
+   For every X <> Y and every candidate set Z of non-descendants of X (without X, Y): the coded back-door test
+   is_valid_backdoor_adjustment_set and the coded is_valid_adjustment_set([X],[Y],Z) both hold iff Z satisfies
+   the back-door criterion on paths. *)
 Theorem C13_backdoor_test_iff_criterion_upto4 : forall n g x y Z, n <= 4 -> In g (all_dags n) ->
   In x (nodes g) -> In y (nodes g) -> x <> y -> In Z (powerset (nondesc_cand g x y)) ->
-  is_valid_backdoor g x y Z = backdoor_criterionb g x y Z /\
-  is_valid_adjustment g [x] [y] Z = Some (backdoor_criterionb g x y Z).
-Proof. exact backdoor_tests_upto4. Qed.
+  (is_valid_backdoor g x y Z = true <-> backdoor_criterion g x y Z) /\
+  (is_valid_adjustment g [x] [y] Z = Some true <-> backdoor_criterion g x y Z).
+Proof. exact backdoor_test_iff_criterion_upto4. Qed.
 Print Assumptions C13_backdoor_test_iff_criterion_upto4.
 
 (* Every set enumerated by get_all_backdoor_adjustment_sets / get_all_frontdoor_adjustment_sets satisfies the
-   path-based criterion and contains no latent variable, for every latent subset and EVERY iteration order of
+   criterion on paths and contains no latent variable, for every latent subset and EVERY iteration order of
    the candidate set; the empty result of the back-door enumeration means "the empty set is valid" (as coded)
    and then the empty set satisfies the criterion. *)
 Theorem C13_enumerated_sets_valid_upto4 : forall n g x y lat order, n <= 4 -> In g (all_dags n) ->
   In x (nodes g) -> In y (nodes g) -> x <> y -> In lat (powerset (nodes g)) -> In order (perms (nodes g)) ->
   (forall l s, all_backdoor_sets g lat x y order = Some (Some l) -> In s l ->
-     backdoor_criterionb g x y s = true /\ disjointb s lat = true) /\
-  (all_backdoor_sets g lat x y order = Some (Some []) -> backdoor_criterionb g x y [] = true) /\
+     backdoor_criterion g x y s /\ (forall v, In v s -> ~ In v lat)) /\
+  (all_backdoor_sets g lat x y order = Some (Some []) -> backdoor_criterion g x y []) /\
   (forall l s, all_frontdoor_sets g lat x y order = Some l -> In s l ->
-     frontdoor_criterionb g x y s = true /\ disjointb s lat = true).
-Proof. exact enumerated_upto4. Qed.
+     frontdoor_criterion g x y s /\ (forall v, In v s -> ~ In v lat)).
+Proof. exact enumerated_sets_valid_upto4. Qed.
 Print Assumptions C13_enumerated_sets_valid_upto4.
 
 (* The coded front-door test holds iff X has a directed path to Y and Z satisfies the front-door criterion on
    paths (pgmpy additionally refuses pairs without a directed path), for every Z not containing X, Y. *)
 Theorem C13_frontdoor_iff_upto4 : forall n g x y Z, n <= 4 -> In g (all_dags n) ->
   In x (nodes g) -> In y (nodes g) -> x <> y -> In Z (powerset (other_nodes g x y)) ->
-  is_valid_frontdoor g x y Z = (has_dpathb g x y && frontdoor_criterionb g x y Z).
-Proof. exact frontdoor_test_upto4. Qed.
+  (is_valid_frontdoor g x y Z = true <-> (exists t, directed_path g x y t) /\ frontdoor_criterion g x y Z).
+Proof. exact frontdoor_iff_upto4. Qed.
 Print Assumptions C13_frontdoor_iff_upto4.
+
+(* finite domain: adjustment over EVERY valid back-door set is the truncated factorisation -- every DAG on <= 3
+   binary nodes, every CPD with columns (p, 1-p), p in {1/4, 2/3}, every X <> Y, every do-value, every Z
+   (without X, Y) satisfying the back-door criterion on paths.  (The unbounded statement is not attempted.) *)
+Theorem C13_backdoor_adjustment_is_truncated_upto3_grid : forall n bn x y xv Z,
+  n <= 3 -> In bn (grid2_bns n) -> In x (nodes (bg bn)) -> In y (nodes (bg bn)) -> x <> y -> xv < 2 ->
+  In Z (powerset (other_nodes (bg bn) x y)) -> backdoor_criterion (bg bn) x y Z ->
+  query bn [y] [(x, xv)] (Some Z) = inr (trunc_table bn [y] [(x, xv)]).
+Proof. exact backdoor_adjustment_is_truncated_upto3_grid. Qed.
+Print Assumptions C13_backdoor_adjustment_is_truncated_upto3_grid.
 
 Example finite_domain_nonempty : length (all_dags 4) = 543%nat /\ length (all_dags 3) = 25%nat.
 Proof. split; vm_compute; reflexivity. Qed.
